@@ -6,6 +6,7 @@ C07 — soft limit: when the eviction callback runs, with what, and the resultin
 import Lockable.Proofs.Evict
 import Lockable.Proofs.Term
 import Lockable.Proofs.Returns
+import Lockable.Proofs.Holds
 namespace Lockable
 
 theorem lookup_not_list (s : State) (h k : Nat) (l : List Nat) : (lookup s h k).2 ≠ .list l := by
@@ -165,6 +166,16 @@ theorem C07_cooperative_returns (a : Api) (v : Variant) (h k n h0 : Nat) (hn : 1
     (hfr : a.s.hs h = none) (hlt : h < h0) (hfree : ∀ x, h0 ≤ x → a.s.hs x = none) (hlen : a.s.order.length ≤ supplyLen) :
     Returned (a.lock v h k (.soft n []) h0).2.res :=
   lock_cooperative_returns a v h k n h0 hn hi hfr hlt hfree hlen
+
+/-- **"... returns with the requested key locked"**: whenever a lock call (any variant, any limit, any callback script)
+answers with a guard, the caller's handle is a holder of exactly the key that was asked for. Together with
+`C07_cooperative_returns` (the call comes back) and `C01_*` (holders are exclusive) this is the full sentence. -/
+theorem C07_guard_means_locked (a : Api) (v : Variant) (h k : Nat) (limit : Limit) (h0 : Nat) (hi : Inv a.s)
+    (hfr : a.s.hs h = none) :
+    match (a.lock v h k limit h0).2.res with
+    | .guard => ∃ hd, (a.lock v h k limit h0).1.s.hs h = some hd ∧ hd.key = k ∧ hd.st = .holding
+    | _ => True :=
+  lock_guard_holds a v h k limit h0 hi hfr
 
 /-- non-vacuity: limit 2, three valued entries one of which is locked: exactly two candidates, in order -/
 example :
